@@ -234,6 +234,34 @@ def cand_vanish_paths():
     return out
 
 
+def rollback_paths():
+    """A failure verdict (timeout / vanished replacement), then MORE queue passes and the late initialisation of the stalled
+    replacement.  The variants put a one-shot and a persistent fault on every call of the rolling-back pass; names start with
+    "rb-": the quick tier replays all fault variants of their rollback calls (is_rollback_variant)."""
+    P = {"a": "QueueRec", "cmd": "A"}
+    Q = {"a": "Quiescent"}
+    late = {"a": "Tick", "d": 601}
+    out = []
+    for nc in (1, 2):
+        st = [{"a": "BuildCmd", "cmd": "A", "nodes": list(NODES[:nc]), "nrepl": 1}, {"a": "StartCmd", "cmd": "A"}, dict(P)]
+        I0 = {"a": "ReplInit", "cmd": "A", "i": 0}
+        out.append(("rb-c%d-timeout-late-init" % nc, st + [{"a": "ReplLaunch", "cmd": "A", "i": 0}, late, dict(P), dict(I0), dict(P), dict(P), Q]))
+        out.append(("rb-c%d-timeout-tick-late-init" % nc, st + [late, dict(P), {"a": "Tick", "d": 1}, dict(I0), dict(P), {"a": "Tick", "d": 1}, dict(P), Q]))
+        out.append(("rb-c%d-vanish-more-passes" % nc, st + [{"a": "ReplVanish", "cmd": "A", "i": 0}, dict(P), dict(P), {"a": "Tick", "d": 1}, dict(P), Q]))
+        st2 = [{"a": "BuildCmd", "cmd": "A", "nodes": list(NODES[:nc]), "nrepl": 2}, {"a": "StartCmd", "cmd": "A"}, dict(P)]
+        out.append(("rb-c%d-r2-timeout-late-init" % nc, st2 + [dict(I0), dict(P), late, dict(P), {"a": "ReplInit", "cmd": "A", "i": 1}, dict(P),
+                                                              dict(P), Q]))
+        out.append(("rb-c%d-r2-vanish-late-init" % nc, st2 + [{"a": "ReplVanish", "cmd": "A", "i": 0}, dict(P), dict(I0, i=1), dict(P), dict(P), Q]))
+    return out
+
+
+def is_rollback_variant(name):
+    """Variant of an rb- path with a fault on a call of the rollback (candidate Node / NodeClaim reads and patches)."""
+    import re
+    return name.startswith("rb-") and (":once:" in name or name.endswith(":always")) and \
+        re.search(r":(get|patch)\.Node\.|:patch\.NodeClaim\.|:get\.NodeClaim\.nc-", name) is not None
+
+
 def extra_paths():
     """Paths on other clusters / through other real components: (name, steps, cluster mutation)."""
     P = {"a": "QueueRec", "cmd": "A"}
